@@ -381,7 +381,11 @@ func (c *Ctx) Prelude() string {
 	b.WriteString("(declare-const str_empty Str)\n(declare-const flt_zero Flt)\n")
 	b.WriteString("(declare-fun str_len (Str) (_ BitVec 64))\n(declare-fun str_cat (Str Str) Str)\n")
 	b.WriteString("(assert (= (str_len str_empty) #x0000000000000000))\n")
-	b.WriteString("(declare-fun ipa (Int Int) Int)\n")
+	b.WriteString("(assert (forall ((a Str) (b Str)) (! (= (str_len (str_cat a b)) (bvadd (str_len a) (str_len b))) :pattern ((str_cat a b)))))\n")
+	b.WriteString("(declare-fun str_suffix (Str Str) Str)\n")
+	b.WriteString("(assert (forall ((a Str) (b Str)) (! (= (str_suffix a (str_cat a b)) b) :pattern ((str_cat a b)))))\n")
+	b.WriteString("(declare-fun ipa (Int Int) Int)\n(declare-fun ipa_owner (Int) Int)\n(declare-fun ipa_field (Int) Int)\n")
+	b.WriteString("(assert (forall ((p Int) (k Int)) (! (and (= (ipa_owner (ipa p k)) p) (= (ipa_field (ipa p k)) k) (< (ipa p k) 0)) :pattern ((ipa p k)))))\n")
 	for _, si := range c.structOrder {
 		fmt.Fprintf(&b, "(declare-datatypes ((%s 0)) (((mk_%s", si.Name, si.Name)
 		for _, f := range si.Fields {
